@@ -13,3 +13,5 @@ mod print;
 mod utf8;
 #[cfg(any(kani, test))]
 mod order;
+#[cfg(any(kani, test))]
+mod frag;
